@@ -117,6 +117,9 @@ def small_programs(tier):
             continue
         src = ctl_program(*spec)
         out.append(("ctl:%s" % (spec,), {"/v/main.lay": src}, "/v/main.lay"))
+    for spec in opcode_prefix_specs(False):
+        if spec[2] in ("vm", "none") or tier == "thorough":
+            out.append(("opc:%s" % (spec,), {"/v/main.lay": opcode_prefix_source(spec)}, "/v/main.lay"))
     import importlib
     per = 150 if tier == "thorough" else 40
     for name in ("c02", "c03", "c04", "c10", "c11", "c17", "c18"):
@@ -137,3 +140,56 @@ def small_programs(tier):
             out.append(("%s:%d" % (name, i), files, c.get("entry", "/v/main.lay")))
     _SMALL_CACHE[tier] = out
     return out
+
+
+# ---- one statement per stack-affecting construct ("a prefix per opcode"), followed by a try that fires --------------------
+OPCODE_PREFIXES = [
+    "let a%d = -l0;", "let a%d = l0 + 1 - 2 * 3 / 4;", "let a%d = !l0;", "let a%d = l0 && p0 || nil;", "let a%d = l0 < 1 == false; let b%d = l0 >= p0 != true; let c%d = l0 <= 2; let d%d = p0 > 1;",
+    "let a%d = [l0, p0, 3];", "let a%d = (l0, p0);", "let a%d = {l0: p0, 'k': 1};", "let a%d = 'x${l0}y${p0}z';", "let a%d = [1, 2, 3, 4, 5, 6, 7, 8, 9, 10, 11, 12, 13, 14, 15, 16, 17, 18, 19, 20];",
+    "let c%d = chan(); let d%d = chan(2); d%d <- l0; let a%d = <- d%d;", "fn w%d() { return 1; } launch w%d();", "fn w%d(x, y) { return x; } launch w%d(l0, p0);",
+    "for i%d in 2.times() { let q%d = i%d; }", "for i%d in [1, 2, 3] { if i%d == 1 { continue; } if i%d == 2 { break; } }", "if l0 == 1 { let b1%d = 1; let b2%d = 2; let b3%d = 3; }",
+    "if l0 == 5 { let x%d = 1; } else { let y%d = 2; let z%d = 3; }", "let w%d = 0; while w%d < 2 { w%d = w%d + 1; }", "while l0 < 0 { let never%d = 1; }",
+    "self.k += 1;", "self.k = self.k + 1;", "@k = 5;", "let a%d = self.n; let b%d = @k;", "let o%d = Base(1); o%d.k += 2; let a%d = o%d.n; o%d.k = 3;",
+    "let ll%d = [1]; ll%d[0] += 1; ll%d[0] = 2; let g%d = ll%d[0];", "let cap%d = 0; let f%d = || { cap%d = cap%d + 1; return cap%d; }; f%d();",
+    "let a%d = super.m();", "let a%d = super.m1(5);", "let f%d = super.m; let a%d = f%d();", "let a%d = super.m2(l0, p0);", "let a%d = self.m1(1);", "let a%d = self.m2(1, 2);", "let a%d = Base.sm();",
+    "class Inner%d { im() { return 1; } static is() { return 2; } } let a%d = Inner%d().im() + Inner%d.is();", "class Inner%d : Base { } let a%d = Inner%d(3).n;",
+    "let a%d = l0 > 0 ? 1 : 2;", "let a%d = l0 > 0 ? (p0 > 0 ? 1 : 2) : 3;", "let a%d = print; let t%d = true; let n%d = nil; let fa%d = false;",
+    "try { raise Error('p'); } catch e%d { let inner%d = 1; }", "try { let ok%d = 1; } catch e%d { let inner%d = 1; }", "let s%d = 'a' + 'b';",
+    "let a%d = l0.str().len();", "let a%d = [1, 2, 3].iter().map(|x| x + l0).list();", "let a%d = [3, 1].sort(|x, y| x - y)[0];", "let m%d = {'a': 1}; m%d['b'] = 2; let a%d = m%d['a'];",
+    "let t%d = (|x, y| x + y)(l0, p0);", "let a%d = [l0][0] == nil || [p0].len() > 0;",
+]
+
+
+def _inst(prefix, k):
+    return prefix.replace("%d", str(k))
+
+
+def opcode_prefix_program(prefixes, in_try, raise_kind):
+    """prefixes: list of prefix texts (already instantiated). in_try: the prefixes are placed inside the try body before the raise. raise_kind: none | vm | raise | deep"""
+    pre = " ".join(prefixes)
+    raise_stmt = {"none": "let quiet = 1;", "vm": "[][1];", "raise": "raise Error('r');", "deep": "self.deep(2);"}[raise_kind]
+    body_try = (pre + " " if in_try else "") + raise_stmt
+    src = ("class Base { init(n) { self.n = n; self.k = 0; } m() { return 'Bm'; } m1(x) { return x; } m2(x, y) { return y; } static sm() { return 1; } "
+           "deep(d) { if d == 0 { raise Error('deep'); } return self.deep(d - 1); } }\n"
+           "class Sub : Base {\n  init(n) { super.init(n); self.extra = 1; }\n  m() { return 'Sm'; }\n  run(p0) {\n    let l0 = 1;\n    %s\n    let r = 'none';\n"
+           "    try { %s r = r + '+done'; } catch e: Error { r = r + '+caught:' + e.message.len().str(); }\n    let post = [l0, p0, r, self.n, self.k];\n    return post;\n  }\n}\n"
+           "print(Sub(1).run(2));\nprint(Sub(3).run(4));\n") % ("" if in_try else pre, body_try)
+    return src
+
+
+def opcode_prefix_specs(pairs):
+    n = len(OPCODE_PREFIXES)
+    for i in range(n):
+        for in_try in (False, True):
+            for rk in ("none", "vm", "raise", "deep"):
+                yield ((i,), in_try, rk)
+    if pairs:
+        for i in range(n):
+            for j in range(n):
+                yield ((i, j), False, "vm")
+                yield ((i, j), True, "deep")
+
+
+def opcode_prefix_source(spec):
+    idx, in_try, rk = spec
+    return opcode_prefix_program([_inst(OPCODE_PREFIXES[i], k) for k, i in enumerate(idx)], in_try, rk)
